@@ -1169,6 +1169,9 @@ class CallMixin(object):
         for cnd in g.ifs:
             t2, cv = self.pure_eval(cnd, tmp)
             conds.append(self.truthy(cv, tmp))
+        alloc_c = self.allocating_contract(node.elt) if not conds else None
+        if alloc_c is not None:
+            return self.allocating_comprehension(st, acc, node, g, src, alloc_c)
         _, val = self.pure_eval(node.elt, tmp)
         val = self.box(tmp, val)
         if conds:
@@ -1190,6 +1193,65 @@ class CallMixin(object):
         rel = self.heap_array(st, "$at")[self.as_ref(res)]
         st.assume(z3.ForAll([k], z3.Implies(z3.And(0 <= k, k < n), rel[k] == val.z)))
         return st, SV(res.z, "ref", cls="list", elem=self.elem_type_of(val))
+
+    def allocating_contract(self, elt):
+        """The element expression of a comprehension is a call whose contract returns a fresh object
+        (lib:<module>.<f> or a call-site override of the current contract)."""
+        if not isinstance(elt, ast.Call) or elt.keywords:
+            return None
+        ftext = ast.unparse(elt.func)
+        c = self.cur_contract
+        cid = None
+        if c is not None and ftext in c.callsites:
+            cid = c.callsites[ftext]
+        elif ("lib:" + ftext) in self.reg:
+            cid = "lib:" + ftext
+        if cid is None:
+            return None
+        cc = self.reg.get(cid)
+        if cc is None or not cc.fresh_result or cc.modifies or cc.raises or cc.requires:
+            return None
+        return cc
+
+    def allocating_comprehension(self, st, acc, node, g, src, cc):
+        """[f(x) for x in seq] where f returns a fresh object: a block of len(seq) new objects, the k-th one
+        satisfying f's postconditions for seq[k]."""
+        u = self.u
+        n = self.seq_len(st, src)
+        base = u.fresh_int("blk")
+        st.assume(base == st.alloc)
+        st.assume(n >= 0)
+        st.alloc = base + n
+        k = u.fresh_int("k")
+        cid = u.class_id(cc.fresh_result)
+        rng = z3.And(0 <= k, k < n)
+        st.assume(z3.ForAll([k], z3.Implies(rng, u.typeof(base + k) == cid)))
+        res = self.new_symbolic_seq(st, "list", "ref:" + cc.fresh_result, length=n)
+        rel = u.fresh("mapped", u.ElemsSort)
+        st.heap["$at"] = z3.Store(self.heap_array(st, "$at"), self.as_ref(res), rel)
+        st.assume(z3.ForAll([k], z3.Implies(rng, rel[k] == u.R(base + k)), patterns=[rel[k]]))
+        # the callee's postconditions for the k-th element
+        tmp = st.copy()
+        el = self.seq_get(tmp, src, k)
+        tmp.env = dict(st.env)
+        self.bind_target(tmp, g.target, el, acc)
+        saved_cc = self.cur_contract
+        try:
+            args = []
+            for a in node.elt.args:
+                _, av = self.pure_eval(a, tmp)
+                args.append(av)
+            env = self.bind_params(tmp, None, cc, None, args, {}, acc)
+            resk = self.mk_ref(base + k, cc.fresh_result, None)
+            self.cur_contract = cc
+            for label, text in cc.ensures:
+                f, _facts = self.spec_formula(text, tmp, env, old=(tmp, env), extra={"result": resk})
+                st.assume(z3.ForAll([k], z3.Implies(rng, f), patterns=[rel[k]]))
+        finally:
+            self.cur_contract = saved_cc
+        if cc.trusted:
+            self.trusted_used.add(cc.fid)
+        return st, SV(res.z, "ref", cls="list", elem="ref:" + cc.fresh_result)
 
     def elem_type_of(self, sv):
         if sv.kind in ("int", "bool", "str"):
